@@ -377,6 +377,8 @@ def query(scanner, expressions):
         retainExpressions = [ expr.parse_string(e, True)[0] for e in expressions ]
     except pyparsing.ParseBaseException as e:
         raise BobError("Invalid retention expression: " + str(e))
+    except RecursionError:
+        raise BobError("Invalid retention expression: too deeply nested")
 
     for bid in scanner.getBuildIds():
         data = scanner.getVars(bid)
